@@ -24,11 +24,13 @@ def toRef : Npm.VersionRange → Comp
   | .wildcardMajor m => .cmp .bare ⟨some m, none, none, []⟩
   | .wildcardMinor m n => .cmp .bare ⟨some m, some n, none, []⟩
   | .hyphen f t => .hyphen (fullP f) (fullP t)
+  | .anchored r _ => toRef r
 
 /-- the operands of a range carry no build metadata -/
 def rangeBuildFree : Npm.VersionRange → Bool
   | .exact v | .caret v | .tilde v | .gte v | .gt v | .lte v | .lt v => v.build.isEmpty
   | .hyphen f t => f.build.isEmpty && t.build.isEmpty
+  | .anchored r _ => rangeBuildFree r
   | _ => true
 
 def flatBuildFree : Npm.VersionSpec → Bool
@@ -54,9 +56,27 @@ def specRef : Npm.VersionSpec → Range
   | .or ss => (ss.filter fun s => !isOr s).map flatRef
   | s => [flatRef s]
 
-/-- `=1.2.3` and `1.2.3` are the same comparator -/
+/-- the partial `M.m` written out as its floor `M.m.0-0` -/
+def floorP (M m : Nat) : Partial := ⟨some M, some m, some 0, ['0']⟩
+
+/-- comparators that denote the same set are brought to one spelling: `=v` is `v`; an operator with a partial
+    operand (`M` or `M.m`) is the comparator on floors the code builds for it (`>1` is `>=2.0.0-0`, `<=1.2` is
+    `<1.3.0-0`, `~1` and `^1` are `1`, `^1.2` is `^1.2.0-0`, `^0.2` and `~0.2` are `0.2`) -/
 def normComp : Comp → Comp
   | .cmp .eq p => .cmp .bare p
+  | .cmp .ge ⟨some M, none, none, _⟩ => .cmp .ge (floorP M 0)
+  | .cmp .ge ⟨some M, some m, none, _⟩ => .cmp .ge (floorP M m)
+  | .cmp .gt ⟨some M, none, none, _⟩ => .cmp .ge (floorP (M + 1) 0)
+  | .cmp .gt ⟨some M, some m, none, _⟩ => .cmp .ge (floorP M (m + 1))
+  | .cmp .le ⟨some M, none, none, _⟩ => .cmp .lt (floorP (M + 1) 0)
+  | .cmp .le ⟨some M, some m, none, _⟩ => .cmp .lt (floorP M (m + 1))
+  | .cmp .lt ⟨some M, none, none, _⟩ => .cmp .lt (floorP M 0)
+  | .cmp .lt ⟨some M, some m, none, _⟩ => .cmp .lt (floorP M m)
+  | .cmp .tilde ⟨some M, none, none, _⟩ => .cmp .bare ⟨some M, none, none, []⟩
+  | .cmp .tilde ⟨some M, some m, none, _⟩ => .cmp .bare ⟨some M, some m, none, []⟩
+  | .cmp .caret ⟨some M, none, none, _⟩ => .cmp .bare ⟨some M, none, none, []⟩
+  | .cmp .caret ⟨some M, some m, none, _⟩ =>
+    if M > 0 then .cmp .caret (floorP M m) else .cmp .bare ⟨some M, some m, none, []⟩
   | c => c
 
 def normRange (r : Range) : Range := r.map (·.map normComp)
